@@ -66,6 +66,41 @@ CHECKS = {
             "Exhaustive on the 65 640-name dictionary (length <= 3 over 40 symbols) + 100 000 identifiers (quick) under 7 replacement strings.",
             "The SHA-256 formula is not pinned; names differing only by Unicode normalisation are different names.",
             "DESIGN §4 C13"),
+    "C12": ("exploration",
+            "runtime monitor: per-log offline checker — whole-line leak search for planted names, positional mask of namespace-bearing positions written from the statement, name<->pseudonym bimap over the multi-line log (one process), tree differential against the flag-off run of the same log",
+            "Held on the generated logs (320 quick / 4 000 thorough, 18 lines each): every declared verb and alias, getMore, three carriers, other components with attr.ns, $lookup/$graphLookup/$unionWith/$merge/$out in string / {coll} / {into} / {db,coll} forms at depth 0-3, tricky names.",
+            "The 'distinct' verb is not in the statement's list and is not generated; P is learned from the same log (its form/stability is C13).",
+            "DESIGN §4 C12"),
+    "C14": ("exploration",
+            "runtime monitor: per-leaf verdict oracle — should_redact computed in the driver from the object keys on the input path with Go's regexp on the same pattern text, compared with 'changed / unchanged' of the aligned output leaf",
+            "Held on the wrapper x name x class catalogue (29 wrappers x matching/non-matching names x 7 classes x 6 regexps) plus random grammar lines.",
+            "Search stages, literals next to a matching '$field' reference, and numbers/booleans without -n/-b are not judged.",
+            "DESIGN §4 C14"),
+    "C15": ("exploration",
+            "runtime monitor: per-log offline checker — positional renaming check of planted field names (keys, '$field' references, plan-summary tokens by an independent tokeniser) with a name<->pseudonym bimap, whole-line leak search, value and byte differential against the flag-off run",
+            "Held on the generated logs (260 quick / 3 000 thorough, 10 lines each) over 5 verbs, 8 prefix-vs-namespace relations and 6 plan-summary forms.",
+            "Names are planted only at the positions the statement lists; whether a renamed reference keeps its '$' is not judged.",
+            "DESIGN §4 C15"),
+    "C16": ("exploration",
+            "runtime monitor: offline checker over the request log of a fake Atlas endpoint (plain HTTP for the library, CONNECT proxy + throw-away CA for the unmodified CLI): expected exchange per configuration, CONNECT targets, stored bytes, <out>.<i> vs the file-channel redaction of payload i, default window bracketed by wall clock",
+            "Held on 41 configurations (8 host lists x 5 windows + SRV) at library and CLI level.",
+            "SRV cannot resolve offline: clean failure with zero downloads is required.",
+            "DESIGN §4 C16"),
+    "C17": ("fault_enumeration",
+            "runtime monitor: fault enumeration at a hostile fake endpoint — n in 1..4 x failing host k x 12 fault kinds + cluster-lookup faults + success; TMPDIR listing when DownloadClusterLogs returns / after DeleteClusterLogs (in-process) and after the CLI process exits",
+            "Exhaustive over n x k x fault kind (232 cases) at both levels.",
+            "On success the returned files belong to the caller; only their number is checked before deletion.",
+            "DESIGN §4 C17"),
+    "C18": ("exploration",
+            "runtime monitor: exhaustive configuration enumeration — all 8 192 switch combinations as real processes in fresh directories, outcome class vs a rule table written from the statement, directory snapshots and fake-endpoint event log for side effects",
+            "Exhaustive: 8 192 of 8 192 combinations in both tiers.",
+            "Which message is printed is not judged; --encrypt with Atlas input and -o counts as well-defined.",
+            "DESIGN §4 C18"),
+    "C20": ("fault_enumeration",
+            "runtime monitor: artefact search — every byte the fake endpoint received (below the HTTP parser, incl. CONNECT preambles), stdout, stderr, returned errors and all files left behind are searched for 10 encodings of the private key; Authorization headers scanned for credentials sent without a Digest challenge",
+            "Held on 5 supply modes x 15 server behaviours x 5 keys (CLI) + 15 x 5 (library).",
+            "/proc/<pid>/cmdline is not an artefact; the Digest response hash and the public key as Digest username are expected.",
+            "DESIGN §4 C20"),
     "C19": ("exploration",
             "runtime monitor: two-pass fixed-point check — the first pass's output file is fed back through the CLI and compared as bytes",
             "Held on the generated files under 2^3 of -n -b -i × 5 replacement texts.",
